@@ -554,6 +554,7 @@ func (x *Exec) applyContractWith(c *callCtx, fc *FuncContract, sig *types.Signat
 	}
 	for _, e := range fc.Ensures {
 		env := x.paramEnv(fc, pkg, pm, rm, c.st, pre)
+		env.assumeSide = true
 		f, err := x.trBool(e.Expr, env)
 		if err != nil {
 			x.contractError(c.fr, e, fmt.Errorf("at call from %s: %v", c.fr.fn.Name(), err))
